@@ -35,11 +35,11 @@ DIMS = dict(
 	meta=['none', 'unicode', 'nested-extra', 'empty-strings', 'mixed-empty', 'id-attr-ncbi_id', 'id-attr-genbank_acc', 'extra-odd-text'],
 	comp=['none', 'gzip0', 'gzip9', 'lzf', 'szip', 'gzip-default'],
 )
-FULL_K = [1, 4, 5, 8, 9, 16, 17, 32]
+FULL_K = [1, 8, 17, 32]          # full product in the thorough tier: one k per index width (was eight values; the product outgrew an hour when ID and metadata kinds were added)
 
 
 def plan(tier, seed):
-	nsh = 16 if tier == 'quick' else 48
+	nsh = 16 if tier == 'quick' else 96
 	tasks = [('t_roundtrip', dict(tier=tier, shard=s, nshards=nsh)) for s in range(nsh)]
 	tasks.append(('t_foreign', dict(seed=seed)))
 	for comp in ('none', 'gzip-default', 'lzf'):
@@ -512,7 +512,7 @@ MANIFEST = dict(
 	engine='E-enum',
 	technique='deviation-bounded exhaustive enumeration of write configurations x all index expressions on real HDF5 files vs. in-memory original',
 	text='Default configuration plus every <=2-dimension deviation over k=1..32, prefix, collection shape, container, ID kind, metadata, compression '
-	     '(thorough: full product for 8 k values) is written by the real writer, re-opened by the real loader and compared with the in-memory original '
+	     '(thorough: full product for 4 k values, one per index width) is written by the real writer, re-opened by the real loader and compared with the in-memory original '
 	     'for kmerspec, IDs, metadata and every integer / slice / index-list / mask expression; a catalogue of foreign files must raise SignaturesFileError.',
 	note='values limited to range-boundary k-mer indices, <=3 signatures (plus the many / bigsig families: thousands of signatures, single signatures up to 2^22 elements); h5py 3.16/HDF5 2.0 as installed.',
 )
